@@ -110,6 +110,8 @@ Inductive stmt :=
 | SBreak | SContinue | SPass
 | SAssert (e : expr)
 | SRaise
+| SAssertR (e : expr) (id : nat)      (* assert e, "reason" *)
+| SRaiseR (id : nat)                  (* raise "reason" *)
 | SReturn (e : option expr)
 | SLog (id : nat) (args : list expr)
 | SExpr (e : expr)
@@ -140,7 +142,7 @@ Record state := mkState {
 
 Record cenv := mkCenv { c_sender : Z; c_value : Z }.
 
-Inductive fail := Revert | OutOfFuel | Stuck.   (* Stuck = ill-typed program: never for generated programs *)
+Inductive fail := Revert | RevertMsg (id : nat) | OutOfFuel | Stuck.   (* RevertMsg: assert/raise with reason string #id; Stuck = ill-typed program: never for generated programs *)
 
 Inductive R (A : Type) :=
 | Ok (a : A) (s : state) (t : list event)
@@ -584,6 +586,14 @@ with exec (fuel : nat) (c : stmt) (s : state) {struct fuel} : R sig :=
       | _ => Fail Stuck
       end
   | SRaise => Fail Revert
+  | SAssertR e id =>
+      do v, s1 <- eval f e s;
+      match v with
+      | VBool true => ret SNormal s1
+      | VBool false => Fail (RevertMsg id)
+      | _ => Fail Stuck
+      end
+  | SRaiseR id => Fail (RevertMsg id)
   | SReturn None => ret (SRet (VList [])) s
   | SReturn (Some e) =>
       do v, s1 <- eval f e s;
@@ -636,6 +646,7 @@ End Interp.
 Inductive ext_result :=
 | XOk (ret : value) (trace : list event) (sto : list value) (tra : list value)
 | XRevert
+| XRevertMsg (id : nat)
 | XError (f : fail).
 
 Definition call_ext (fuel : nat) (P : prog) (ce : cenv) (idx : nat) (args : list value)
@@ -651,6 +662,7 @@ Definition call_ext (fuel : nat) (P : prog) (ce : cenv) (idx : nat) (args : list
       | Ok SNormal s t => XOk (VList []) t (st_sto s) (st_tra s)
       | Ok _ _ _ => XError Stuck
       | Fail Revert => XRevert
+      | Fail (RevertMsg k) => XRevertMsg k
       | Fail x => XError x
       end
   end.
@@ -711,8 +723,8 @@ Fixpoint depth_s (c : stmt) : nat :=
   | SIf c th el => S (Nat.max (depth_e c) (Nat.max (depth_b th) (depth_b el)))
   | SFor _ _ _ body => S (depth_b body)
   | SForDyn _ e _ body | SForIn _ e body => S (Nat.max (depth_e e) (depth_b body))
-  | SBreak | SContinue | SPass | SRaise | SReturn None => 1
-  | SAssert e | SReturn (Some e) | SExpr e => S (depth_e e)
+  | SBreak | SContinue | SPass | SRaise | SRaiseR _ | SReturn None => 1
+  | SAssert e | SAssertR e _ | SReturn (Some e) | SExpr e => S (depth_e e)
   | SLog _ args => S (depth_l args)
   end.
 Fixpoint depth_b (l : list stmt) : nat :=
